@@ -1,8 +1,10 @@
 import Ccp.Proofs.Range
+import Ccp.Proofs.RangeCompress
 /-!
 # C14 — integer range strings expand to the denoted set and compress back canonically
 
-Property theorems only; helper lemmas live in `Ccp.Proofs.Range`.
+Property theorems only; helper lemmas live in `Ccp.Proofs.Range` and
+`Ccp.Proofs.RangeCompress`.
 -/
 namespace Ccp.C14
 open Ccp.Range Ccp.Py
@@ -73,5 +75,144 @@ theorem views_are_data (d : List Nat) (hd : d.Pairwise (· < ·)) : sortedSet d 
 
 -- non-vacuity: a text with overlap, blanks, a duplicate and a descending interval
 example : (parse "3-5, 1,4 ,9-7,1".toList).toOption = some [1, 3, 4, 5] := by decide
+
+/-! ## The compressed string
+
+Spec.  `runs S` are the maximal runs of consecutive values of a strictly ascending list, as
+`(first, last)`; the canonical text writes a run of one value `a`, of two values `a,b`, of
+three or more `a-b`, and joins the runs with commas. -/
+
+/-- maximal runs of consecutive values: `x` extends the first run of the rest when it is
+adjacent to it, otherwise it starts a run of its own -/
+def runs : List Nat → List (Nat × Nat)
+  | [] => []
+  | x :: xs =>
+    match runs xs with
+    | (a, b) :: rs => if x + 1 = a then (x, b) :: rs else (x, x) :: (a, b) :: rs
+    | [] => [(x, x)]
+
+def renderRun : Nat × Nat → Str
+  | (a, b) =>
+    if a = b then toDec a
+    else if a + 1 = b then toDec a ++ ',' :: toDec b
+    else toDec a ++ '-' :: toDec b
+
+def renderRuns (rs : List (Nat × Nat)) : Str := join [','] (rs.map renderRun)
+
+example : runs [1, 3, 4, 6, 7, 8, 10] = [(1, 1), (3, 4), (6, 8), (10, 10)] := by decide
+example : renderRuns (runs [1, 3, 4, 6, 7, 8, 10]) = "1,3,4,6-8,10".toList := by decide +kernel
+
+/-- the spec above is the one the helper lemmas are proved about -/
+theorem runs_eq (s : List Nat) : runs s = Range.runs s := by
+  induction s with
+  | nil => rfl
+  | cons x xs ih =>
+    rw [runs, Range.runs, ih]
+    cases Range.runs xs with
+    | nil => rfl
+    | cons r rs => rfl
+
+theorem renderRuns_eq (rs : List (Nat × Nat)) : renderRuns rs = Range.renderRuns rs := rfl
+
+/-- **Canonical text**: for every strictly ascending `S` the index loop of
+`as_compressed_str` (three-element window, de-duplicated `"-"` markers, comma inserted
+exactly between two entries of the same type) writes the maximal runs of `S`:
+`a`, `a,b` or `a-b` joined by commas. -/
+theorem compress_canonical (S : List Nat) (hS : S.Pairwise (· < ·)) :
+    compress S = renderRuns (runs S) := by
+  rw [runs_eq, renderRuns_eq]; exact compress_eq S hS
+
+/-- The same for any list: `compress` first sorts and de-duplicates. -/
+theorem compress_canonical_any (l : List Nat) :
+    compress l = renderRuns (runs (sortedSet l)) := by
+  have h := compress_canonical (sortedSet l) (sortedSet_sorted l)
+  unfold compress at h ⊢
+  rwa [sortedSet_of_sorted _ (sortedSet_sorted l)] at h
+
+/-- **What makes the text canonical**: the runs are well formed (`first ≤ last`), expanded in
+order they give back exactly `S` (they cover `S` and nothing else), and any two runs are
+separated by a gap (`last + 2 ≤ first` of every later run), so they are ascending and none
+can be extended or merged — they are maximal. -/
+theorem runs_canonical (S : List Nat) (hS : S.Pairwise (· < ·)) :
+    (∀ r ∈ runs S, r.1 ≤ r.2) ∧
+    (runs S).flatMap (fun r => upto r.1 r.2) = S ∧
+    (runs S).Pairwise (fun r t => r.2 + 2 ≤ t.1) := by
+  rw [runs_eq]
+  exact ⟨runs_le S, runs_cover S, runs_separated S hS⟩
+
+-- non-vacuity: an ascending list with runs of length 1, 2, 3 and a large value
+example : [0, 2, 3, 5, 6, 7, 70000].Pairwise (· < ·) := by decide
+example : compress [0, 2, 3, 5, 6, 7, 70000] = "0,2,3,5-7,70000".toList := by decide +kernel
+
+/-- **Round trip at the string level**: for every strictly ascending `S`, the compressed
+string is accepted by the parser and expands to `S` again (for `S = []` the text is `""`). -/
+theorem expand_compress (S : List Nat) (hS : S.Pairwise (· < ·)) :
+    parse (compress S) = .ok S := by
+  rw [compress_eq S hS]; exact parse_renderRuns S hS
+
+example : (parse (compress [0, 2, 3, 5, 6, 7, 70000])).toOption = some [0, 2, 3, 5, 6, 7, 70000] := by
+  decide +kernel
+example : compress [] = [] ∧ (parse []).toOption = some [] := by decide
+
+/-- For any list (unsorted, with duplicates) the compressed string expands to its sorted set. -/
+theorem expand_compress_any (l : List Nat) : parse (compress l) = .ok (sortedSet l) := by
+  have h := expand_compress (sortedSet l) (sortedSet_sorted l)
+  unfold compress at h ⊢
+  rwa [sortedSet_of_sorted _ (sortedSet_sorted l)] at h
+
+/-- The compressed string determines the members: two ascending lists with the same
+compressed string are equal. -/
+theorem compress_injective (S T : List Nat) (hS : S.Pairwise (· < ·)) (hT : T.Pairwise (· < ·))
+    (h : compress S = compress T) : S = T := by
+  have e := expand_compress S hS
+  rw [h, expand_compress T hT] at e
+  exact (Except.ok.inj e).symm
+
+/-- Compressing what a text expanded to and expanding again gives the same members. -/
+theorem parse_compress_idem (text : Str) (d : List Nat) (h : parse text = .ok d) :
+    parse (compress d) = .ok d :=
+  expand_compress d (parse_denotes text d h).1
+
+example : (parse "3-5, 1,4 ,9-7,1".toList).toOption = some [1, 3, 4, 5] ∧
+    compress [1, 3, 4, 5] = "1,3-5".toList ∧ (parse "1,3-5".toList).toOption = some [1, 3, 4, 5] := by
+  decide +kernel
+
+/-- **String level, expansion side**: every non-empty list of parts `lo` / `lo-hi` written
+in decimal without blanks and joined by commas is accepted and expands to the sorted union
+of its parts. -/
+theorem parse_written_parts (ps : List (Nat × Option Nat)) (hne : ps ≠ []) :
+    parse (renderParts ps) = .ok (sortedSet (ps.flatMap expandPart)) :=
+  parse_renderParts ps hne
+
+example : renderParts [(9, some 11), (3, none), (10, some 12)] = "9-11,3,10-12".toList ∧
+    (parse (renderParts [(9, some 11), (3, none), (10, some 12)])).toOption = some [3, 9, 10, 11, 12] := by
+  decide +kernel
+
+/-! ## Reading never changes the range -/
+
+/-- **Readers are pure**: every read accessor (`len`, iteration, `as_list`, `as_set`,
+`as_compressed_str`, re-expansion, `in`) leaves the state as it was. -/
+theorem readers_pure (d : List Nat) (op : Op) (h : op.isRead = true) : (stepOp d op).1 = d := by
+  cases op <;> first | rfl | exact absurd h (by simp [Op.isRead])
+
+/-- … and so does any sequence of reads. -/
+theorem readers_pure_seq (d : List Nat) (ops : List Op) (h : ∀ op ∈ ops, op.isRead = true) :
+    ops.foldl (fun s op => (stepOp s op).1) d = d := by
+  induction ops with
+  | nil => rfl
+  | cons op ops ih =>
+    rw [List.foldl_cons, readers_pure d op (h op (by simp))]
+    exact ih (fun o ho => h o (by simp [ho]))
+
+/-- A failed `append` / `remove` leaves the state as it was, too. -/
+theorem failed_mutation_pure (d : List Nat) (op : Op) (e : Err) (h : (stepOp d op).2 = .err e) :
+    (stepOp d op).1 = d := by
+  cases op <;> try rfl
+  all_goals (simp only [stepOp] at h ⊢; split <;> simp_all)
+
+-- non-vacuity: the seven read operations are reads, the mutators are not and do change the state
+example : [Op.len, .iter, .list, .set, .cstr, .rexp, .has 3].all Op.isRead = true := by decide
+example : (stepOp [1, 3] (.app 2)).1 = [1, 2, 3] ∧ (stepOp [1, 3] (.rem 3)).1 = [1] ∧
+    (stepOp [1, 3] (.app 3)) = ([1, 3], .err .duplicate) := by decide
 
 end Ccp.C14
